@@ -445,6 +445,11 @@ pub fn lockstep(space: &Space<'_>, entry: &ConfigEntry, params: &RunParams, hist
     let mut alt: Vec<Op> = Vec::with_capacity(hist.len() + 1);
     for v in &space.variants {
         alt.clear();
+        if v.by_value_wrap && params.ctor == Ctor::Unallocated {
+            // `by_value()` itself creates the first chunk (with the default size): the two runs would not start
+            // from equal states, which is what the property quantifies over
+            continue;
+        }
         if v.by_value_wrap {
             alt.push(Op::Enter(crate::facade::Region::ByValue));
         }
